@@ -62,7 +62,7 @@ reg("C29","ctrl","exploration","history checking over a journal of scripted-endp
     "random concurrent interleavings of Create/Pause/Resume/Flush/Reset/Terminate/manager restart against journaling scripted endpoints with random latencies: no endpoint call executes inside a (Pause returned, Resume called) interval; paused state survives restart; a successful waited flush has a full scan started after the request and a completed cycle before return; terminated sessions leave no files and no later calls; reset keeps root content (real local roots). Race detector on.",
     "a pause interval is judged only when no Resume overlaps the Pause; restarts happen with no command in flight")
 reg("C40","ctrl","exploration","reference-model comparison (independent selector evaluator, reference path ordering)",
-    "real Manager with 0-40 paused sessions, random names/labels: List by identifiers, names and label selectors (restricted grammar) returns exactly the reference's set in creation order and fails on a miss; conflict/problem lists sorted depth-first and truncated with exact excluded counts; fastpath.Less vs a component-wise comparator incl. strict-weak-order laws.",
+    "real Manager with 0-40 paused sessions, random names/labels: List by identifiers, names and label selectors (restricted grammar) returns exactly the reference's set in creation order and fails on a miss; crafted creation times (stored session records rewritten from a seeded grid while no manager is alive, incl. later seconds with smaller nanoseconds and equal times; fresh manager loads them) must be listed in (seconds, nanoseconds) order; conflict/problem lists sorted depth-first and truncated with exact excluded counts; fastpath.Less vs a component-wise comparator incl. strict-weak-order laws.",
     "identifier-prefix specifications are not exercised")
 
 reg("C30","statex","exploration","linearizability checking (porcupine counter model) of recorded client-boundary histories + monotonicity and bounded-progress checks",
